@@ -49,7 +49,7 @@ def setup_worker(tier=None):
 def cases(tier, seed):
   out = []
   q = tier == 'quick'
-  n_cov, n_rca, n_lfda = (24, 24, 40) if q else (240, 500, 1000)
+  n_cov, n_rca, n_lfda = (24, 24, 40) if q else (2400, 5000, 10000)
   for i in range(n_cov):
     out.append({'kind': 'cov', 'i': i, 'seed': seed,
                 'mode': ['full', 'dupcol', 'n<=d', 'd=1', 'zero-var',
@@ -59,7 +59,7 @@ def cases(tier, seed):
                 'supervised': bool(i % 3 == 2)})
   for i in range(n_lfda):
     out.append({'kind': 'lfda', 'i': i, 'seed': seed})
-  for i in range(8 if q else 48):
+  for i in range(8 if q else 480):
     out.append({'kind': 'rca-degenerate', 'i': i, 'seed': seed, 'n': 25})
   return out
 
